@@ -18,17 +18,19 @@ from vlib.common import NCPU, REPO, VERIF, sh
 
 PROP_FILE = "Properties_C07.v"
 F3_KEY = "evalcache-contempt:startpos:c50->c0"
-# EndGameEval::isBishopPawnDraw<false> (black = the side with only king, pawns and bishops) selects the
-# b/g-file masks `bFile`/`acFile` by (whiteBishop == darkBishop), which for black WITHOUT a bishop is the
-# b-file although the squares b7..d7 are taken on the g-file side: the g-file fortress (pawn g3 against
-# pawn g2, defending king f1..e2) is scored a draw with colours reversed only.
-BPD_FEN = "8/8/8/5k2/6p1/6p1/6P1/5K2 w - - 0 1"
-BPD_KEY = "endgame-isBishopPawnDraw-black-without-bishop:" + BPD_FEN.replace(" ", "_")
+# EndGameEval::isBishopPawnDraw is also called for a side WITHOUT a bishop (the call sites only require
+# no R/N/Q); then darkBishop = lightBishop = false and every selector picks the g-file variant of the
+# "pawn b6 against pawn b7" fortress: the b-file fortress of a bishop-less side is never recognised, for
+# either colour.  Colour-symmetric (since fix b5f4a2d) but not left-right symmetric.
+BPD_FEN = "8/8/8/5k2/6p1/6p1/6P1/5K2 w - - 0 1"          # g-file: scored as a draw
+BPD_MIRROR = "8/8/8/2k5/1p6/1p6/1P6/2K5 w - - 0 1"       # its left-right mirror: not recognised
+BPD_KEY = "endgame-isBishopPawnDraw-no-bishop-fortress-only-on-g-file:" + BPD_FEN.replace(" ", "_")
 
 
 def bpd_pattern(fen):
-    """necessary condition for the known isBishopPawnDraw asymmetry: one side has only king and pawns and
-    its pawn on (its own) g6 blocks an enemy pawn on g7 — in either colouring"""
+    """necessary condition for the known left-right asymmetry of isBishopPawnDraw: one side has only king
+    and pawns, one of its pawns on its own b6/g6 blocks an enemy pawn on b7/g7, and the defending king is
+    on its two back ranks — in either colouring"""
     rows = fen.split()[0].split("/")
     b = {}
     for r, row in enumerate(rows):
@@ -40,8 +42,12 @@ def bpd_pattern(fen):
                 b[(f, 7 - r)] = ch
                 f += 1
     pcs = set(b.values())
-    black_strong = not (pcs & set("qrbn")) and b.get((6, 1)) == "P" and b.get((6, 2)) == "p"
-    white_strong = not (pcs & set("QRBN")) and b.get((6, 6)) == "p" and b.get((6, 5)) == "P"
+    wk = [sq for sq, ch in b.items() if ch == "K"]
+    bk = [sq for sq, ch in b.items() if ch == "k"]
+    black_strong = (not (pcs & set("qrbn")) and any(b.get((f, 1)) == "P" and b.get((f, 2)) == "p" for f in (1, 6))
+                    and bool(wk) and wk[0][1] <= 1)
+    white_strong = (not (pcs & set("QRBN")) and any(b.get((f, 6)) == "p" and b.get((f, 5)) == "P" for f in (1, 6))
+                    and bool(bk) and bk[0][1] >= 6)
     return black_strong or white_strong
 
 FENS = [
@@ -280,9 +286,9 @@ def spec_failures(h):
             if v != vf:
                 out.append(("evalPos-differs-from-fresh-evaluator", t))
             if vf != vs:
-                out.append(("evalPos-not-colour-symmetric" + ("-known-bishopPawnDraw" if BPD_ACTIVE[0] and bpd_pattern(fen) else ""), t))
+                out.append(("evalPos-not-colour-symmetric", t))
             if vm != "-" and vf != vm:
-                out.append(("evalPos-not-mirror-symmetric", t))
+                out.append(("evalPos-not-mirror-symmetric" + ("-known-bishopPawnDraw" if BPD_ACTIVE[0] and bpd_pattern(fen) else ""), t))
     return out
 
 
@@ -490,14 +496,23 @@ def run(ctx):
             except OSError:
                 pass
 
-    # known asymmetry of endGameEval.cpp: replay its witness first; positions of the same pattern found later
-    # by the random histories are attributed to it (counted), not reported again
-    rc, so, se = sh(hcmd(exes["material"], "hist", "derived"), input="H 0 %s\nQ\n" % BPD_FEN, timeout=120, check=True)
+    # known left-right asymmetry of endGameEval.cpp: replay its witness pair first; mirror asymmetries of the
+    # same pattern found later by the random histories are attributed to it (counted), not reported again.
+    # The same positions are the regression input of the colour asymmetry repaired by b5f4a2d: evalPos of
+    # the colour-swapped positions must be equal (checked like for every other Q: a difference is a VIOLATION).
+    wscript = "H 0 %s\nQ\nH 0 %s\nQ\n" % (BPD_FEN, BPD_MIRROR)
+    rc, so, se = sh(hcmd(exes["material"], "hist", "derived"), input=wscript, timeout=120, check=True)
     bq = [l.split() for l in so.split("\n") if l.startswith("T Q ")]
-    BPD_ACTIVE[0] = bool(bq) and bq[0][3] != bq[0][4]
-    ctx.notes["endgame_mirror_witness"] = {"position": BPD_FEN, "net": "material-2", "evalPos": bq[0][3] if bq else None,
-                                           "evalPos_of_colour_swapped_position": bq[0][4] if bq else None,
-                                           "asymmetric": BPD_ACTIVE[0]}
+    BPD_ACTIVE[0] = len(bq) == 2 and bq[0][3] != bq[1][3]
+    ctx.notes["endgame_mirror_witness"] = {"g_file_position": BPD_FEN, "b_file_position": BPD_MIRROR, "net": "material-2",
+                                           "evalPos_g_file": bq[0][3] if bq else None, "evalPos_b_file": bq[1][3] if len(bq) > 1 else None,
+                                           "evalPos_of_colour_swapped_positions": [x[4] for x in bq],
+                                           "left_right_asymmetric": BPD_ACTIVE[0]}
+    for x in bq:
+        if x[3] != x[4]:
+            ctx.violation("evalPos is not colour-symmetric on the regression input of fix b5f4a2d: %s" % " ".join(x),
+                          {"failing_input": {"net": "material", "script": wscript.split("\n")[:-1], "kind": "evalPos-not-colour-symmetric",
+                                             "trace_line": " ".join(x)}}, key="evalPos-not-colour-symmetric:material:" + "_".join(x[8:]))
 
     # (4) correspond: histories
     rng = ctx.rng
@@ -731,14 +746,14 @@ def run(ctx):
     ctx.log("evaluation cache compared")
     # ---------- verdict ----------
     nb = sum(1 for h, (kind, d) in specfails if kind.endswith("-known-bishopPawnDraw"))
-    ctx.count("colour_asymmetries_attributed_to_isBishopPawnDraw", nb)
+    ctx.count("mirror_asymmetries_attributed_to_isBishopPawnDraw", nb)
     specfails = [x for x in specfails if not x[1][0].endswith("-known-bishopPawnDraw")]
     if BPD_ACTIVE[0]:
-        ctx.violation("evalPos is not colour-symmetric: EndGameEval::isBishopPawnDraw<false> (black without a bishop) uses the "
-                      "b-file masks with the g-file squares: %s evaluates to %s (material net) but its colour-swapped "
-                      "position 5k2/6p1/6P1/6P1/5K2/8/8/8 b - - 0 1 to %s" % (BPD_FEN, bq[0][3], bq[0][4]),
-                      {"failing_input": {"net": "material", "script": ["H 0 " + BPD_FEN, "Q"], "kind": "evalPos-not-colour-symmetric",
-                                         "trace_line": " ".join(bq[0])}}, key=BPD_KEY)
+        ctx.violation("evalPos is not left-right symmetric: EndGameEval::isBishopPawnDraw, called for a side without a bishop, "
+                      "recognises the blocked-pawn fortress only on the g-file: %s evaluates to %s (material net) but its "
+                      "left-right mirror %s to %s" % (BPD_FEN, bq[0][3], BPD_MIRROR, bq[1][3]),
+                      {"failing_input": {"net": "material", "script": wscript.split("\n")[:-1], "kind": "evalPos-not-mirror-symmetric",
+                                         "trace_line": " ".join(bq[0]) + "  ||  " + " ".join(bq[1])}}, key=BPD_KEY)
     if f3_real:
         ctx.violation("evalPos returns a value cached under a different contempt (eval cache key = historyHash only, "
                       "table outlives Evaluate::setWhiteContempt): start position, net 'zero': contempt 50 -> evalPos=%s, "
